@@ -614,6 +614,60 @@ pub fn step_adm(sim: &mut Sim, ctx: &mut Ctx, adm: &AdmSwarm) -> Option<Tx> {
                 }
             }
         }
+        13 if ctx.rng.chance(1, 2) => {
+            // a bank added while the market runs, with a configuration drawn from the whole
+            // domain (valid and invalid weights, tiers, oracle ages); the monitors judge the
+            // request - the harness does not route users to the new bank
+            let cfgw = crate::world::WorldCfg::swarm(ctx.rng);
+            let decimals = *ctx.rng.pick(&[0u8, 6, 9]);
+            let mint = ctx.rng.pubkey();
+            sim.apply(Event::SetAccount {
+                key: mint,
+                account: Some(crate::fixtures::mint_account(crate::fixtures::TokenKind::Spl, decimals, u64::MAX / 2)),
+                why: "fixture_new_mint",
+            });
+            let isolated = ctx.rng.chance(1, 4);
+            let mut config = crate::world::gen_bank_config(ctx.rng, &cfgw, decimals, isolated);
+            match ctx.rng.below(8) {
+                0 => config.asset_weight_init = w(1.01),
+                1 => config.asset_weight_maint = w(2.01),
+                2 => {
+                    config.asset_weight_init = w(0.9);
+                    config.asset_weight_maint = w(0.8);
+                }
+                3 => config.liability_weight_maint = w(0.99),
+                4 => {
+                    config.liability_weight_init = w(1.1);
+                    config.liability_weight_maint = w(1.2);
+                }
+                5 => config.oracle_max_age = *ctx.rng.pick(&[0u16, 5, 9]),
+                6 => {
+                    config.risk_tier = RiskTier::Isolated;
+                    config.asset_weight_init = w(0.5);
+                    config.asset_weight_maint = w(0.6);
+                }
+                _ => {}
+            }
+            sim.stats.fault("bank_added_at_runtime");
+            let use_seed = ctx.rng.chance(1, 2);
+            let add = if use_seed {
+                let seed = ctx.rng.below(1000);
+                let bank = ix::bank_with_seed_pda(&g.key, &mint, seed);
+                let keys = ix::BankKeys::new(g.key, bank, mint, crate::rt::spl_token_id());
+                ix::add_bank_with_seed(&keys, g.admins.admin, ctx.world.payer, ctx.world.fee_wallet, config, seed)
+            } else {
+                let bank = ctx.rng.pubkey();
+                let keys = ix::BankKeys::new(g.key, bank, mint, crate::rt::spl_token_id());
+                let mut a = ix::add_bank(&keys, g.admins.admin, ctx.world.payer, ctx.world.fee_wallet, config);
+                for m in a.accounts.iter_mut() {
+                    if m.pubkey == bank {
+                        m.is_signer = true;
+                    }
+                }
+                a
+            };
+            Tx::one("group_admin", add)
+        }
         13 => Tx::one("group_admin", ix::close_bank(g.key, b.keys.bank, g.admins.admin)),
         14 => match ctx.rng.below(3) {
             0 => Tx::one("fee_admin", ix::config_group_fee(g.key, ctx.world.fee_admin, ctx.rng.chance(1, 2))),
